@@ -9,7 +9,7 @@ CONSTANTS
   MaxStake = 2
   MaxPools = 1
   Prec = 10
-  InitLP = 3
+  InitLP = 2
   InitR = 20
   Fee = 5
   TaxNum = 2
